@@ -53,3 +53,17 @@ func VSetBitmap(p *Peer, b []byte) {
 		p.bitmap = bitmap.Bitmap(b).Copy()
 	}
 }
+
+func VSetInfo(p *Peer, info []byte)       { p.Info = info }
+func VSetSeed(p *Peer, v bool)            { p.isSeed = v }
+func VSetExt(p *Peer, pexE, metaE, dhE uint32) {
+	p.pexExt, p.metadataExt, p.dontHaveExt = pexE, metaE, dhE
+	p.canExtended = true
+}
+func VSetUploadState(p *Peer, interested, unchoking uint32, others int32) {
+	p.interested, p.amUnchoking = interested, unchoking
+	numUnchoking = others + int32(unchoking)
+}
+func VAddRequested(p *Peer, i, b, l uint32) { p.requested = append(p.requested, Requested{i, b, l}) }
+func VFillWriter(p *Peer, n int)            { vFill(p, n) }
+func VSetPort(p *Peer, port uint32)         { p.Port = port }
